@@ -683,6 +683,10 @@ elif hasattr(os, 'SEEK_DATA'):
         try:
             while end < limit:
                 start = file_obj.seek(end, os.SEEK_DATA)
+
+                if start >= limit:
+                    break
+
                 end = min(file_obj.seek(start, os.SEEK_HOLE), limit)
                 yield start, end - start
         except OSError as exc: # pragma: no cover
